@@ -32,8 +32,9 @@ func TestVerifReplayC12Sched(t *testing.T) {
 	shape, mode := int(sc.Args[0]), int(sc.Args[1])
 	dir := t.TempDir()
 	exists := func(n string) bool { _, err := os.Stat(filepath.Join(dir, n)); return err == nil }
-	deps := [][][]string{{nil, {"a"}, nil}, {nil, nil, nil}, {nil, {"a"}, {"b"}}}[shape]
+	deps := [][][]string{{nil, {"a"}, nil}, {nil, nil, nil}, {nil, {"a"}, {"b"}}, {nil, {"a"}, nil}}[shape]
 	g, _ := NewExecutionGraph()
+	inner, _ := NewExecutionGraph()
 	var stages []*Stage
 	cond := filepath.Join(dir, "cond.sh")
 	os.WriteFile(cond, []byte("#!/bin/sh\nexit 0\n"), 0o755)
@@ -50,10 +51,19 @@ func TestVerifReplayC12Sched(t *testing.T) {
 		if mode == 1 && i == 1 {
 			s.Condition = cond
 		}
-		if err := g.AddStage(s); err != nil {
+		target := g
+		if shape == 3 && i < 2 {
+			target = inner // a and b form a nested pipeline
+		}
+		if err := target.AddStage(s); err != nil {
 			t.Fatal(err)
 		}
 		stages = append(stages, s)
+	}
+	if shape == 3 {
+		if err := g.AddStage(&Stage{Name: "n", Pipeline: inner}); err != nil {
+			t.Fatal(err)
+		}
 	}
 	r, _ := runner.NewTaskRunner()
 	r.Stdout, r.Stderr = &strings.Builder{}, &strings.Builder{}
